@@ -31,8 +31,8 @@ func c12RT(d *IpfsDHT) []peer.ID {
 	return ps
 }
 
-func c12Run(t *testing.T, r *vfRand, nPeers, nActions int) (steps []c12Step, self peer.ID, refreshAnswers []int, panicked string) {
-	c := &lkCase{k: 20, alpha: 1 + r.Intn(3), beta: 1 + r.Intn(3)}
+func c12Run(t *testing.T, r *vfRand, nPeers, nActions, k int) (steps []c12Step, self peer.ID, refreshAnswers []int, panicked string) {
+	c := &lkCase{k: k, alpha: 1 + r.Intn(3), beta: 1 + r.Intn(3)}
 	node := simNewNode(t, r, c.k, c.alpha, c.beta)
 	defer node.Close()
 	d := node.d
@@ -116,10 +116,31 @@ func c12Run(t *testing.T, r *vfRand, nPeers, nActions int) (steps []c12Step, sel
 			panicked = fmt.Sprint(e)
 		}
 	}()
+	if k < 20 {
+		steps = append(steps, c12Step{action: "bulk-identify"})
+		cur = &steps[len(steps)-1]
+		for _, p := range ids {
+			_ = node.h.ps.AddProtocols(p, proto)
+			cur.events = append(cur.events, fmt.Sprintf("PeerChange %s true", kad(p)))
+			_ = emitter1.Emit(event.EvtPeerIdentificationCompleted{Peer: p})
+			quiesce(context.Background(), nil, nil)
+		}
+		synctest.Wait()
+		cur.rt = c12RT(d)
+		// a third of the members start failing
+		for _, p := range ids {
+			if r.Chance(33) {
+				fails[p] = true
+			}
+		}
+	}
 	for a := 0; a < nActions; a++ {
 		steps = append(steps, c12Step{})
 		cur = &steps[len(steps)-1]
 		x := r.Intn(100)
+		if k < 20 && x < 55 {
+			x = 60 // mostly lookups in the large cases
+		}
 		switch {
 		case x < 30: // identification completed for a peer speaking the protocol
 			p := ids[r.Intn(len(ids))]
@@ -235,11 +256,19 @@ func TestVerifC12(t *testing.T) {
 		}
 		nPeers := 3 + r.Intn(8)
 		nActions := 5 + r.Intn(8+i%20)
+		k := 20
+		if i%4 == 3 {
+			// a small bucket size: the seeds of a lookup (the K nearest members) are then a strict
+			// subset of the table, and members met only during a lookup can fail too; the table may
+			// refuse peers (bucket full), which the comparison then tolerates
+			k = 2 + r.Intn(2)
+			nPeers = 6 + r.Intn(8)
+		}
 		var steps []c12Step
 		var self peer.ID
 		var answers []int
 		var panicked string
-		leak := simBubble(t, func(t *testing.T) { steps, self, answers, panicked = c12Run(t, r.Fork(), nPeers, nActions) })
+		leak := simBubble(t, func(t *testing.T) { steps, self, answers, panicked = c12Run(t, r.Fork(), nPeers, nActions, k) })
 		stepsCoq := make([]string, len(steps))
 		acts := map[string]int{}
 		nev := 0
@@ -254,8 +283,8 @@ func TestVerifC12(t *testing.T) {
 				okAnswers = false
 			}
 		}
-		coq := fmt.Sprintf("{| c_self := %s; c_steps := %s;\n   i_panic := %s; i_refresh_answered_once := %s |}",
-			simKadCoq([]byte(self)), vfList(stepsCoq), vfBool(panicked != "" || leak != ""), vfBool(okAnswers))
+		coq := fmt.Sprintf("{| c_self := %s; c_may_reject := %s; c_steps := %s;\n   i_panic := %s; i_refresh_answered_once := %s |}",
+			simKadCoq([]byte(self)), vfBool(k < 20), vfList(stepsCoq), vfBool(panicked != "" || leak != ""), vfBool(okAnswers))
 		sig := ""
 		if nev > 3 {
 			keys := []string{}
